@@ -54,6 +54,15 @@ def main():
             gt = [rng.choice(GS + [rng.gauss(0, 1), rng.gauss(0, 1)]) for _ in range(nv + 2)]
             sd = rng.choice(big + [rng.uniform(0, 5)])
             ops.append(("SG %s %s | %s" % (fhex(sd), vals_hex(gt), vals_hex(near)), "OGauss %s [%s] %s" % (cq(sd), "; ".join(cq(x) for x in gt), sn))); mm.append(("G", sd, near))
+        # the RNG's range functions on chosen variates: uniformReal, uniformInt, halfNormalReal, halfNormalInt, gaussian
+        for j in range(5):
+            k = rng.randint(0, 4)
+            if k in (1, 3): lo = float(rng.randint(-50, 50)); hi = lo + rng.choice([0, 0, 1, 2, 7, 100])
+            else: lo = rng.choice([-2.5, 0.0, 1e-9, -1e6, 3.0]); hi = lo + rng.choice([0.0, 1e-12, 1.0, 2.5, 1e9])
+            cpar = rng.choice([0.5, 1.0, 3.0, 1e-3, 1e6])
+            v = rng.choice(US + [rng.random()]) if k in (0, 1) else rng.choice(GS + [rng.gauss(0, 1), rng.gauss(0, 3)])
+            if k == 4: hi = rng.choice([0.0, 1.0, 2.5, 1e6])     # (mean, stddev)
+            ops.append(("RNG %d %s %s %s %s" % (k, fhex(lo), fhex(hi), fhex(cpar), fhex(v)), "ORng %d %s %s %s %s" % (k, cq(lo), cq(hi), cq(cpar), cq(v)))); mm.append(("R", k, (lo, hi)))
         R.add(sp, ops); meta.append(mm)
     impl, model = R.run("c08")
     ndiff = npred = nev = 0; first_diff = None; first_pred = None
@@ -82,6 +91,10 @@ def main():
                 if fl[:1] != ["1"]: pred(sp, il, "enforceBounds leaves a finite state outside the bounds")
                 if fl[1:2] != ["1"]: pred(sp, il, "enforceBounds is not idempotent")
                 if par in ("in", "seam") and any(not (x == y) for x, y in zip(vals, va)): pred(sp, il, "enforceBounds changes an in-bounds state")
+            elif kind == "R":
+                out = fval(ib[0]); lo, hi = va
+                if par != 4 and not (lo <= out <= hi): pred(sp, il, "RNG::%s(%r, %r) returned %r, outside the requested range" % (["uniformReal", "uniformInt", "halfNormalReal", "halfNormalInt"][par], lo, hi, out))
+                if par in (1, 3) and out != math.floor(out): pred(sp, il, "RNG integer function returned a non-integer")
             elif kind == "S":
                 if par in ("in", "seam") and w[1:] != ["1"]: pred(sp, il, "generated in-bounds state does not satisfy the bounds (generator or satisfiesBounds)")
             else:
